@@ -1,5 +1,6 @@
 import QipVerif.Lemmas.SchedPulse
 import QipVerif.Lemmas.SchedOracle
+import QipVerif.Lemmas.SchedRuleGen
 /-!
 # C11 — pulse schedules are physically valid timetables
 
@@ -14,9 +15,12 @@ durations, both methods, both permutation settings and **every** permutation-val
 the successor sets); `pulseStarts_eq` / `real_oracle_perm`: the executable model compared with the
 code is such an instance.
 
-Clauses: `start_nonneg`, `min_start_zero`, `dep_respected`, `makespan_le_sum` are theorems.
-`no_overlap` is **false** (`C11_counterexample_no_overlap`, known finding); `no_overlap_partial`
-proves it under an explicit hypothesis.
+Clauses: `start_nonneg`, `min_start_zero`, `dep_respected`, `makespan_le_sum` are theorems for both variants of the
+conflict-edge recording (`fx`).  `no_overlap` is a theorem for the repaired recording (`no_overlap_fixed`, `fx = true`;
+the tree under test has it: `tree_conflict_fix`, regenerated from the source), so all five clauses hold together
+(`timetable_valid_fixed`, `timetable_valid_tree`).  For the code before the repair (`fx = false`) the clause is
+**false** (`C11_counterexample_no_overlap`, kept as a regression witness) and `no_overlap_partial` proves it under an
+explicit hypothesis.
 -/
 namespace QipVerif.C11
 open QipVerif.Sched Relation
@@ -129,6 +133,38 @@ theorem no_overlap_fixed (hO : ∀ r l, (O2 r l).Perm l) (hdur : ∀ a ∈ ns, 0
         simp only [decide_eq_false_iff_not]; omega
       simp [h3]
   · unfold overlaps; simp [hs]
+
+/-- **timetable_valid_fixed.**  All five clauses together for the repaired code: every instruction list with
+non-negative durations, ASAP and ALAP, permutation allowed or not, every permutation-valued oracle. -/
+theorem timetable_valid_fixed (hO : ∀ r l, (O2 r l).Perm l) (hdur : ∀ a ∈ ns, 0 ≤ a.dur) :
+    (∀ i, i < ns.length → 0 ≤ (startsGen alap allowPerm true ns O2).getD i 0) ∧
+    (ns ≠ [] → ∃ i, i < ns.length ∧ (startsGen alap allowPerm true ns O2).getD i 0 = 0) ∧
+    (∀ i j, i < j → j < ns.length → shareIdx ns i j = true → commIdx allowPerm ns j i = false →
+      (startsGen alap allowPerm true ns O2).getD i 0 + durIdx ns i ≤ (startsGen alap allowPerm true ns O2).getD j 0) ∧
+    (∀ i, i < ns.length → (startsGen alap allowPerm true ns O2).getD i 0 + durIdx ns i ≤ (ns.map Ins.dur).sum) ∧
+    noOverlap ns (startsGen alap allowPerm true ns O2) = true :=
+  ⟨start_nonneg alap allowPerm true ns O2 hO hdur,
+   fun hne => (min_start_zero alap allowPerm true ns O2 hO hdur hne).1,
+   fun i j hij hj hs hc => dep_respected alap allowPerm true ns O2 hO hdur i j hij hj hs hc,
+   makespan_le_sum alap allowPerm true ns O2 hO hdur,
+   no_overlap_fixed alap allowPerm ns O2 hO hdur⟩
+
+/-- the tree under test records the conflict edges from all executed instructions (`Gen/SchedRule.lean`, regenerated
+from `_add_dependency_among_commuting_gates` / `find_topological_order` of the source with `ast`) -/
+theorem tree_conflict_fix : Gen.SchedRule.conflictFix = true := by decide
+
+/-- **timetable_valid_tree.**  The executable model with the variant of the tree under test (the configuration the
+driver runs and the correspondence compares with the code): a valid timetable for every instruction list with
+non-negative durations, every method / permutation setting / recorded shuffles. -/
+theorem timetable_valid_tree (cfg : Cfg) (hfx : cfg.fx = Gen.SchedRule.conflictFix) (hdur : ∀ a ∈ ns, 0 ≤ a.dur) :
+    (∀ i, i < ns.length → 0 ≤ (pulseStarts cfg ns).getD i 0) ∧
+    (ns ≠ [] → ∃ i, i < ns.length ∧ (pulseStarts cfg ns).getD i 0 = 0) ∧
+    (∀ i j, i < j → j < ns.length → shareIdx ns i j = true → commIdx cfg.allowPerm ns j i = false →
+      (pulseStarts cfg ns).getD i 0 + durIdx ns i ≤ (pulseStarts cfg ns).getD j 0) ∧
+    (∀ i, i < ns.length → (pulseStarts cfg ns).getD i 0 + durIdx ns i ≤ (ns.map Ins.dur).sum) ∧
+    noOverlap ns (pulseStarts cfg ns) = true := by
+  rw [pulseStarts_eq, hfx, tree_conflict_fix]
+  exact timetable_valid_fixed cfg.alap cfg.allowPerm ns (O2of cfg ns) (real_oracle_perm ns cfg) hdur
 
 -- the repaired code schedules the witness of the finding without overlap
 example : pulseStarts ⟨false, true, [], true⟩
